@@ -708,7 +708,9 @@ def main():
         chk.violation('proof obligation no longer checks', {'broken': chk.broken}, no_input=True)
     chk.finish(
         level='proof',
-        rule='in-process: corpus/C01 witnesses + byte-mutated black-box corpus + slot-grammar files (header fields incl. X-Poedit-* and malformed names, flags, format strings of the four kinds, '
+        rule='in-process: corpus/C01 witnesses + table sweeps (every row of data/languages x language sources, characters, iso codes, charsets, header fields, string formats, timezones, control characters, '
+             'special domains, read from the loaded tool) + character-class sweeps (every str.isspace character as a line at 11 positions and as separator in 18 slots, every non-ASCII str.isdigit '
+             'character in 17 numeric slots) + byte-mutated black-box corpus + slot-grammar files (header fields incl. X-Poedit-* and malformed names, flags, format strings of the four kinds, '
              'plural declarations with boundary numerals / 4300-4301 digits / nesting 3..1500, 130 charset names incl. the tool\'s own, non-ASCII-compatible and non-text codecs, bodies encoded in the '
              'declared or in a wide/stateful codec, dates, locale names, addresses with nested comments, XML-gated messages, PO lexical/structural shapes), MO files from a serializer (hostile headers, '
              'corrupted words, truncation), random bytes, other extensions x options (-l valid/invalid, --file-type, base name, LC_MESSAGES directory); command line: special cases (unreadable paths, '
@@ -733,7 +735,7 @@ def main():
                     'pipeline_nocrash_unconditional (every Pending field discharged: loaders = C09 Mo.parse and C10 Po.load (Lemmas/PoNoCrash: closed outcome set), stages = C17\'s Meta.Real.pipeline with the models of '
                     'C15, C19, C04-C07, C20, C18, C16, C14 over the parsers of C11/C12/C13 (Lemmas/PipelineBrace, PipelineReal): status 0, empty stderr, only tag lines for every list of arguments incl. ARBITRARY '
                     'byte strings as MO/PO/POT, every accepted -l, every -j), real_mo_nocrash, real_po_nocrash, worldOk_live, pipeline_crash_visible, '
-                    'line_is_tag_line (C02), recursion_budget. OUTSTANDING: nothing about a stage; the world contracts named under trusted_base; any theorem about time; recursion depth (REFUTED on the real code: open finding '
+                    'line_is_tag_line (C02), recursion_budget; the trusted data tables as obligations over Generated files regenerated by this check: registry_parses_strictly (C07 shipped_registry_clean), registry_language_nocrash, tags_registered, locale_tables_sane, charset_tables_sane, timezone_table_sane, message_tables_sane. OUTSTANDING: nothing about a stage; the world contracts named under trusted_base; any theorem about time; recursion depth (REFUTED on the real code: open finding '
                     'crash:RecursionError:lib/intexpr.py, plural expressions nested deeper than ~490, replayed from corpus/C01 on every run). '
                     'TEST (this run): %d in-process files, %d command-line runs, %d size-doubling families, %d regexes screened (%d repeats pumped), %d slot-sweep files. '
                     'FIXED by this check\'s findings in /repo: 4ff67ee, d16b49e, 875595a (+ recorded 2f85d76, 9de4551).'
